@@ -13,7 +13,7 @@ use serde::{Deserialize, Serialize};
 pub fn def() -> PropDef {
     PropDef {
         id: "C17",
-        rule: "generated histories on one encoder or decoder of every family x engine: a first configuration, then 1..6 steps, each a reset (or into_parts -> new(Some(work)) into another family/engine) to a generated target followed by complete rounds (adds, encode/decode, results read through the borrowing accessors, result dropped). A counting global allocator records every allocation and growing reallocation made by the thread inside the measured region 'reset/new-with-work + adds + encode/decode + read + drop'. need(cfg) is *measured* on a freshly built object of the same family (the sizes of everything its constructor allocates, engine excluded). Every history is executed at three scales: as generated, with every shard size x3, and with every count x2. oracle (metamorphic): in every region whose target fits (need(target) <= the element-wise maximum need over the object's past, at both scales) and in every second or later round of a configuration, the number of bytes allocated must be the same at both scales, i.e. nothing that is allocated there may grow with the shard size or with the counts (a fixed-size scratch buffer is not shard-proportional and is tolerated; it is reported in the class histogram). Every measured buffer is >= 16 KiB. Part big_resets: reset-only sawtooth histories (largest configuration first, then fractions of it) whose largest working space is drawn log-uniformly from 16 KiB to 512 MiB (quick) / 1 GiB (thorough), with a complete round (result read and dropped) after every reset to a small configuration, executed as generated and with doubled shard sizes, same oracle (byte thresholds in fast paths are invisible to small configurations). non-trivial: target differs from the previous configuration and fits; distinct by full case",
+        rule: "generated histories on one encoder or decoder of every family x engine: a first configuration, then 1..6 steps, each a reset (or into_parts -> new(Some(work)) into another family/engine) to a generated target followed by complete rounds (adds, encode/decode, results read through the borrowing accessors, result dropped). A counting global allocator records every allocation and growing reallocation made by the thread inside the measured region 'reset/new-with-work + adds + encode/decode + read + drop'. need(cfg) is *measured* on a freshly built object of the same family (the sizes of everything its constructor allocates, engine excluded). Every history is executed at three scales: as generated, with every shard size x3, and with every count x2. oracle (metamorphic): in every region whose target fits (need(target) <= the element-wise maximum need over the object's past, at both scales) and in every second or later round of a configuration, the number of bytes allocated must be the same at both scales, i.e. nothing that is allocated there may grow with the shard size or with the counts (a fixed-size scratch buffer is not shard-proportional and is tolerated; it is reported in the class histogram). Every measured buffer is >= 16 KiB. Part big_resets: reset-only sawtooth histories (largest configuration first, then fractions of it) whose largest working space is drawn log-uniformly from 16 KiB to 512 MiB (quick) / 4 GiB (thorough), with a complete round (result read and dropped) after every reset to a small configuration, executed as generated and with doubled shard sizes, same oracle (byte thresholds in fast paths are invisible to small configurations). non-trivial: target differs from the previous configuration and fits; distinct by full case",
         assumptions: &[
             "an object holds at least the maximum it ever needed (Vec never shrinks); capacity may be larger, which only makes the check claim 'fits' less often than true",
             "all lookup tables and engines are initialised before measuring",
@@ -65,7 +65,7 @@ fn strategy(_t: Tier) -> BoxedStrategy<AllocCase> {
 fn parts() -> Vec<Box<dyn PartDyn>> {
     vec![
         Box::new(GenPart { name: "alloc", quick: 1_000, thorough: 100_000, shrink_iters: 400, strat: strategy, check }),
-        Box::new(GenPart { name: "big_resets", quick: 16, thorough: 600, shrink_iters: 30, strat: big_strategy, check: check_big }),
+        Box::new(GenPart { name: "big_resets", quick: 16, thorough: 150, shrink_iters: 8, strat: big_strategy, check: check_big }),
     ]
 }
 
@@ -90,9 +90,9 @@ pub struct BigCase {
 fn big_strategy(t: Tier) -> BoxedStrategy<BigCase> {
     // sawtooth: largest first, then down and up again below the maximum, so that every case contains
     // resets that fit with small and with large growth relative to what the buffer currently uses
-    let max_q = t.pick(4 * 29u8, 4 * 30u8); // 512 MiB quick, 1 GiB thorough (before the x2 scale)
+    let max_q = t.pick(4 * 29u8, 4 * 32u8); // 512 MiB quick, 4 GiB thorough (before the x2 scale)
     let frac = prop_oneof![Just(64u8), Just(48), Just(32), Just(16), Just(1), Just(0), 0u8..=64];
-    (any::<bool>(), gen::kind_rate(), gen::engine(), prop_oneof![1usize..=8, 1usize..=300], prop_oneof![1usize..=8, 1usize..=600], any::<bool>(), prop_oneof![1 => (4 * 14u8)..=(4 * 22u8), 4 => (4 * 22u8)..=max_q], prop::collection::vec(frac, 2..=5))
+    (any::<bool>(), gen::kind_rate(), gen::engine(), prop_oneof![1usize..=8, 1usize..=300], prop_oneof![1usize..=8, 1usize..=600], any::<bool>(), prop_oneof![2 => (4 * 14u8)..=(4 * 22u8), 8 => (4 * 22u8)..=(4 * 29u8), 1 => (4 * 29u8)..=max_q], prop::collection::vec(frac, 2..=5))
         .prop_map(|(dec, kind, eng, bounded, other, flip, top_q, fractions)| BigCase { dec, kind, eng, bounded, other, flip, top_q, fractions })
         .boxed()
 }
